@@ -39,6 +39,34 @@ CHECKS.update({
          "DESIGN.md section 3 C14"),
 })
 
+CHECKS.update({
+ "C05": ("exploration",
+         "runtime reference-model monitor: the real DeriveRESstarAndSetKey against an independent Milenage + TS 33.501 Annex A key chain (ref/sec) on generated tuples, OP-only / OPc-only / both",
+         "Each generated tuple (K, OP/OPc, RAND, AUTN, MCC/MNC, SUPI, algorithm ids; structured single-bit and all-00/FF corners) is run through the real derivation three times in child processes and RES*, K_AMF, K_NASint, K_NASenc are compared with the independent chain.",
+         "ref/sec is stdlib-only (bare AES block, HMAC-SHA-256), self-tested on TS 35.207/208 vectors; serving network name built as RegisterUE builds it.",
+         "DESIGN.md section 3 C05"),
+ "C06": ("exploration",
+         "online history monitor: a reference receiver (ref/sec) with the same keys and a shadow NAS COUNT checks every message of generated uplink histories produced by the real EncodeNasPduWithSecurity / NASEncode; exhaustive counter arithmetic",
+         "Histories of 300/700 operations per algorithm pair (plain, header types 1-4, new-context flags, wrap at 2^8 and 2^24) are executed on a real UE context; after every call the monitor checks SQN octet, MAC under the shadow COUNT with BEARER=1/DIRECTION=uplink, clear vs ciphered payload per header type, exact recovery of the plain message, and the counter accessors. All 2^24+300 AddOne steps of security.Count are compared with integer arithmetic in thorough.",
+         "Message variety comes from the emulator's own constructors; NIA0 is not a supported pair.",
+         "DESIGN.md section 3 C06"),
+ "C07": ("exploration",
+         "runtime differential monitor: security.NASEncrypt / NASMacCalculate against independent 128-EEA1/EIA1 (SNOW 3G from algebraic S-boxes) and 128-EEA2/EIA2 (hand-rolled AES-CTR / CMAC) for every message length 1..L",
+         "Every length 1..300 (quick) / 1..2100 (thorough) x several (key, COUNT, BEARER, DIRECTION) tuples with all BEARER values is evaluated for NEA0/1/2 and NIA1/2; involution and independence of earlier calls are checked per case; the reference's S-box/MUL-alpha table coverage is reported.",
+         "Octet-aligned non-empty messages; oracle self-tested on TS 35.222, TS 33.401 Annex C and RFC 4493 vectors.",
+         "DESIGN.md section 3 C07"),
+ "C10": ("exploration",
+         "online history monitor: downlink histories protected by a reference AMF (ref/sec.ProtectNAS with its own COUNT, skips, wraps, context resets) are fed to the real NASDecode / GetNasPdu; decoded message and DL COUNT estimate compared per message",
+         "Histories of 300/700 downlink messages per algorithm pair (plain, integrity-only in clear, ciphered; SQN skips 1..40; several 8-bit wraps; new-context resets) are pushed through the real unprotect entry points; the monitor compares the returned message with the library's decode of the plain bytes and DLCount with the AMF's COUNT after every message.",
+         "MAC failures are not part of the property; skips stay below 128.",
+         "DESIGN.md section 3 C10"),
+ "C15": ("exploration",
+         "runtime reference-model monitor: milenage F1/F2345/GenerateOPC/MilenageGenerate against ref/sec, and an accept-iff-valid oracle for Milenage_check / Milenage_auts with every single-bit corruption of AUTN and AUTS",
+         "Generated (K, OP, RAND, SQN_net, SQN_ue, AMF) tuples with SQN pairs that differ in exactly one octet (each octet in turn), +-1 and equal; the valid AUTN and all 128 single-bit and sampled single-octet corruptions go through Milenage_check, stale SQNs through the AUTS round trip with all 112 single-bit corruptions.",
+         "SQN order is the unsigned 48-bit order; oracle self-tested on TS 35.207/208 sets 1-3.",
+         "DESIGN.md section 3 C15"),
+})
+
 NOT_YET = {}
 
 def main():
